@@ -18,6 +18,7 @@ import SpsdkVerif.Proofs.ConfigArea
 import SpsdkVerif.Generated.RegLayouts
 import SpsdkVerif.Generated.RegDetails
 import SpsdkVerif.Generated.PfrFuns
+import SpsdkVerif.Generated.CrcTable
 
 namespace SpsdkVerif.C12
 open SpsdkVerif SpsdkVerif.CfgArea SpsdkVerif.Misc SpsdkVerif.BinImg
@@ -153,7 +154,7 @@ def knownDuplicateFieldNames : List String :=
 /-- all per-layout facts about the details table in one Boolean (one kernel evaluation of the 0.7 MB table) -/
 def detailsOkB (ld : Layout × LayoutD) : Bool :=
   alignedB ld.1 ld.2 && resetsB ld.1 ld.2 && enumsFitB ld.1 ld.2 && computedTargetsB ld.1 ld.2 &&
-  (knownDuplicateRegNames.contains ld.1.name || regNamesB ld.1 ld.2) &&
+  (knownDuplicateRegNames.contains ld.1.name || (regNamesB ld.1 ld.2 && findRegB ld.2)) &&
   (knownDuplicateFieldNames.contains ld.1.name || fieldNamesB ld.2)
 
 theorem gen_details_ok :
@@ -185,8 +186,19 @@ theorem gen_computed_targets : layoutsD.all (fun ld => computedTargetsB ld.1 ld.
   details_all (fun ld h => by simp only [detailsOkB, Bool.and_eq_true] at h; exact h.1.1.2)
 
 theorem gen_reg_names_unique_partial :
-    layoutsD.all (fun ld => knownDuplicateRegNames.contains ld.1.name || regNamesB ld.1 ld.2) = true :=
+    layoutsD.all (fun ld => knownDuplicateRegNames.contains ld.1.name || (regNamesB ld.1 ld.2 && findRegB ld.2)) = true :=
   details_all (fun ld h => by simp only [detailsOkB, Bool.and_eq_true] at h; exact h.1.2)
+
+/-- … hence `find_reg(name)` (first register whose name OR uid is the key) resolves the name of every register of every
+    generated layout to that very register: a configuration keyed by register names addresses the registers it was taken from -/
+theorem gen_find_reg_resolves_partial (l : Layout) (d : LayoutD) (hld : (l, d) ∈ layoutsD)
+    (hk : knownDuplicateRegNames.contains l.name = false) (i j : Nat) (r r' : RegD)
+    (hi : d.regs[i]? = some r) (hj : d.regs[j]? = some r') (hm : r'.name = r.name ∨ r'.uid = r.name) : j = i := by
+  have h := gen_reg_names_unique_partial
+  rw [List.all_eq_true] at h
+  have := h (l, d) hld
+  simp only [hk, Bool.false_or, Bool.and_eq_true] at this
+  exact findRegB_sound d this.2 i j r r' hi hj hm
 
 theorem gen_field_names_unique_partial :
     layoutsD.all (fun ld => knownDuplicateFieldNames.contains ld.1.name || fieldNamesB ld.2) = true :=
@@ -430,6 +442,14 @@ theorem xmcd_roundtrip (l : Layout) (vals : Vals) (wf : LayoutWF l) (hb : l.bina
   obtain ⟨b, he, hlen⟩ := area_export_size l vals wf hb hs
   exact ⟨b, he, hlen, area_values_restored l vals b wf hb hs he, area_parse_export l vals b wf hb hs he,
     by simp [xmcdCrc, he]⟩
+
+/-- the CRC the model computes is the one the SOURCE names: `XMCD.calculate_crc` uses the `CrcAlg` member `xmcdCrcAlg`
+    (read from xmcd.py), whose row in `CRC_ALGORITHMS` (read from crc.py by the C09 generator) is a non-reflected CRC with
+    exactly the model's polynomial, start value and final xor -/
+theorem xmcd_crc_is_source_algorithm :
+    ∃ cfg, (Generated.CrcTable.table.find? (fun row => row.1 == Generated.RegLayouts.xmcdCrcAlg)).map (·.2.2) = some cfg ∧
+      cfg.reverse = false ∧ ∀ b, crc32Mpeg b = crcMsb32 (cfg.polynomial % 2 ^ 32) cfg.initialValue cfg.finalXor b :=
+  ⟨⟨0x104C11DB7, 0xFFFFFFFF, 0x0, false⟩, by decide, rfl, fun _ => rfl⟩
 
 /-- the model's CRC is CRC-32/MPEG-2 (check value of the catalogue for "123456789") -/
 theorem xmcd_crc_check : crc32Mpeg [0x31, 0x32, 0x33, 0x34, 0x35, 0x36, 0x37, 0x38, 0x39] = 0x0376E6E7 := by decide
